@@ -469,7 +469,7 @@ func startSrvChild(dir string, race bool, o srvChildOpts, env ...string) (*srvCh
 	}()
 
 	// wait for the addresses (bounded; the child compiles nothing, it only opens a database)
-	for i := 0; i < 3000; i++ {
+	for i := 0; i < 9000; i++ {
 		b, _ := os.ReadFile(outPath)
 
 		for _, l := range strings.Split(string(b), "\n") {
